@@ -1,7 +1,7 @@
 (* C17 — set-gen output implements mathematical sets with sorted listing (partial: the step from
    the template text to this model is behavioural: every run compiles the code regenerated from
    the current template and replays operation sequences against the extracted model). *)
-Require Import Gengo.Base.Str Gengo.Base.SortSpec Gengo.Model.Sets Gengo.Proofs.SetsProofs.
+Require Import Gengo.Base.Str Gengo.Base.SortSpec Gengo.Model.Sets Gengo.Proofs.SetsProofs Gengo.Model.Flatten Gengo.Proofs.FlattenProofs.
 From Coq Require Import Permutation Sorting.Sorted.
 
 Theorem C17_membership_ops : forall a b items x,
@@ -63,4 +63,38 @@ Print Assumptions C17_pop.
 Example C17_example :
   map fst (run (init 3) [OInsert 0 [3; 1; 3]%N; OInsert 1 [1; 2]%N; OUnion 2 0 1; OList 2; OInter 2 0 1; OList 2; OEqual 0 1])
   = [RNone; RNone; RNone; RList [1; 2; 3]%N; RNone; RList [1%N]; RBool false].
+Proof. vm_compute. reflexivity. Qed.
+
+(* ---------- struct keys: types.FlattenMembers, whose result lessBody compares field by field ---------- *)
+(* the struct's own members first, in declaration order; then the promoted members, each a
+   flattened member of an embedded struct under a name not seen before; every flattened member of
+   every embedded struct is represented by name *)
+Theorem C17_flatten_members : forall i ms r, flat_ty (TStruct i ms) = Some r ->
+  (exists extra, r = own ms ++ extra /\
+     (forall x, In x extra -> exists m sub, In m ms /\ promoted m = true /\ flat_ty (m_ty m) = Some sub /\ In x sub) /\
+     (forall x, In x extra -> ~ In (m_name x) (names (own ms))) /\ NoDup (names extra)) /\
+  (forall m sub x, In m ms -> promoted m = true -> flat_ty (m_ty m) = Some sub -> In x sub -> In (m_name x) (names r)).
+Proof. exact flatten_spec. Qed.
+Print Assumptions C17_flatten_members.
+(* no field name twice: the generated less function compares every flattened field exactly once *)
+Theorem C17_flatten_each_name_once : forall i ms r, flat_ty (TStruct i ms) = Some r -> NoDup (names (own ms)) -> NoDup (names r).
+Proof. exact flatten_names_NoDup. Qed.
+Print Assumptions C17_flatten_each_name_once.
+Theorem C17_flatten_plain_struct : forall i ms, (forall m, In m ms -> promoted m = false) -> flat_ty (TStruct i ms) = Some ms.
+Proof. exact flatten_plain. Qed.
+Print Assumptions C17_flatten_plain_struct.
+(* lessBody over the flattened fields: a strict total order on keys (tuples of field values of one
+   length), so "ascending" is well defined for struct keys *)
+Theorem C17_less_is_strict_total_order :
+  (forall a, less_body a a = false) /\
+  (forall a b, less_body a b = true -> less_body b a = false) /\
+  (forall a b c, less_body a b = true -> less_body b c = true -> less_body a c = true) /\
+  (forall a b, length a = length b -> a <> b -> less_body a b = true \/ less_body b a = true).
+Proof. exact (conj less_irrefl (conj less_asym (conj less_trans less_total))). Qed.
+Print Assumptions C17_less_is_strict_total_order.
+Example C17_example_flatten :
+  let meta := TStruct 10 [(s "P", false, TLeaf 1); (s "Q", false, TLeaf 1)] in
+  let ident := TStruct 11 [(s "Meta", true, meta)] in
+  option_map names (flat_ty (TStruct 12 [(s "Ident", true, ident); (s "Number", false, TLeaf 1); (s "Q", false, TLeaf 2)]))
+  = Some [s "Number"; s "Q"; s "P"].
 Proof. vm_compute. reflexivity. Qed.
